@@ -235,7 +235,9 @@ fn expected_schema(g: &Graph, k: usize) -> serde_yaml::Value {
 
 #[derive(Clone, Copy, PartialEq, Eq, Debug)]
 enum Stmt {
-    Use { target: usize, spell: usize },
+    /// `alias`: the duplicate copy of a `use`, written under a second qualifier (`as n<k>`)
+    /// through which the declaration of the module then reaches the import.
+    Use { target: usize, spell: usize, alias: bool },
     Missing,
 }
 
@@ -398,10 +400,10 @@ impl GraphSpace {
                 let mut sorted = vec![];
                 for &b in &self.g.adj[a] {
                     let spell = self.spell_of(v.spelling, a, b);
-                    sorted.push(Stmt::Use { target: b, spell });
+                    sorted.push(Stmt::Use { target: b, spell, alias: false });
                     if v.dup > 0 && self.redges[(v.dup - 1) / 2] == (a, b) {
                         let spell = if (v.dup - 1) % 2 == 0 { spell } else { (spell + 1) % 3 };
-                        sorted.push(Stmt::Use { target: b, spell });
+                        sorted.push(Stmt::Use { target: b, spell, alias: true });
                     }
                 }
                 if v.missing == a + 1 {
@@ -463,7 +465,9 @@ fn texts(g: &Graph, stmts: &[Vec<Stmt>], decl_pos: usize) -> BTreeMap<String, St
         let mut decl = String::new();
         let _ = write!(decl, "let v{k} = {{ 'p{k} str");
         for j in &g.adj[k] {
-            let _ = write!(decl, ", 'm{j} m{j}.v{j}");
+            // an import written a second time under another qualifier is used through that one
+            let aliased = stmts[k].iter().any(|st| matches!(st, Stmt::Use { target, alias: true, .. } if target == j));
+            let _ = write!(decl, ", 'm{j} {}{j}.v{j}", if aliased { "n" } else { "m" });
         }
         decl.push_str(" };\n");
         if k == 0 {
@@ -475,8 +479,8 @@ fn texts(g: &Graph, stmts: &[Vec<Stmt>], decl_pos: usize) -> BTreeMap<String, St
         }
         for (i, st) in stmts[k].iter().enumerate() {
             match st {
-                Stmt::Use { target, spell } => {
-                    let _ = writeln!(s, "use \"{}{}\" as m{target};", SPELL[*spell], rel_path(k, *target));
+                Stmt::Use { target, spell, alias } => {
+                    let _ = writeln!(s, "use \"{}{}\" as {}{target};", SPELL[*spell], rel_path(k, *target), if *alias { "n" } else { "m" });
                 }
                 Stmt::Missing => {
                     let _ = writeln!(s, "use \"{MISSING_FILE}\" as zz;");
@@ -1221,7 +1225,7 @@ impl Engine for C10 {
         }
     }
     fn rule(&self) -> String {
-        "every directed graph on N nodes (2^(N*N) adjacency matrices, self loops included, fewest edges first) read as the import relation of main.oal, m1.oal, ... laid out in one directory and, in the bounds that name a layout, (1) with the imported modules side by side in a sub-directory (a/m1.oal, a/m2.oal, ...), (2) with the same file name in several directories (a/m.oal, m.oal, a/b/m.oal, b/m.oal) and (3) with two pairs of equally named files (a/m1.oal, m2.oal, a/m2.oal, m1.oal), every `use` spelling the target relative to the importing file (so the same spelling denotes different files from different modules, and `..` segments occur); module k is `use \"mj.oal\" as mj;` for each import, `let vk = { 'pk str, 'mj mj.vj ... };`, and main adds `res / on get -> <v0>;`, so the document depends on every reachable module. Per graph the product of: (a) optional `use \"zz.oal\"` (no such file) appended to one module (N+1 choices, unreachable modules included); (b) optional duplicate of one `use` (each edge leaving a reachable module; copy with the same or with the next spelling); (c) spelling of the paths over {m.oal, ./m.oal, d/../m.oal}: all plain, each single reachable edge with each alternative, all edges with each alternative, and plain paths with the declaration of every module written before its `use` statements or after the first of them (5+2E choices, not the 3^E product); (d) order of the `use` statements of every reachable module: for N<=3 every permutation of lists of <= 3 statements (so every order of every out-degree) and, for the lists of 4 or 5 statements that arise when a 3-import module also gets the duplicate and/or the missing import, the 2L rotations of the sorted list and of its reverse; for N=4 every permutation of lists of <= 2 statements, longer lists sorted and reversed. Statements of modules unreachable from main are not varied (a correct loader never reads them; reading them is caught in every configuration). Bounds named `full product` cross (a) x (b) x (c) x (d); the bound named `reduced product` (N=3 in the quick tier) takes (c) x (d) without duplicate and missing import, plus (a) x (b) x (d) with plain spelling (the copy of a duplicated use still takes the same or the next spelling); the bound named `separate axes` (N=4) takes (c) x (d), (a) x (d) and (b) x (d). Each configuration runs the real module::load with a recording in-memory Loader (real parse, real compile), then eval + OpenAPI builder + YAML. Oracle: DFS reachability and three-colour cycle detection; result class; load/parse/compile exactly once for exactly the reachable modules; compile(b) before compile(a) for every import a->b; response schema equal to the tree unfolding of the graph; result class and YAML text equal to those of the canonical configuration (sorted order, plain spelling, no duplicate) of the same graph. A configuration is trivial when main imports nothing and nothing is missing; distinct = distinct (result, call trace, document) triples".into()
+        "every directed graph on N nodes (2^(N*N) adjacency matrices, self loops included, fewest edges first) read as the import relation of main.oal, m1.oal, ... laid out in one directory and, in the bounds that name a layout, (1) with the imported modules side by side in a sub-directory (a/m1.oal, a/m2.oal, ...), (2) with the same file name in several directories (a/m.oal, m.oal, a/b/m.oal, b/m.oal) and (3) with two pairs of equally named files (a/m1.oal, m2.oal, a/m2.oal, m1.oal), every `use` spelling the target relative to the importing file (so the same spelling denotes different files from different modules, and `..` segments occur); module k is `use \"mj.oal\" as mj;` for each import, `let vk = { 'pk str, 'mj mj.vj ... };`, and main adds `res / on get -> <v0>;`, so the document depends on every reachable module. Per graph the product of: (a) optional `use \"zz.oal\"` (no such file) appended to one module (N+1 choices, unreachable modules included); (b) optional duplicate of one `use` (each edge leaving a reachable module; copy with the same or with the next spelling, written under a second qualifier through which the module's declaration then reaches the import); (c) spelling of the paths over {m.oal, ./m.oal, d/../m.oal}: all plain, each single reachable edge with each alternative, all edges with each alternative, and plain paths with the declaration of every module written before its `use` statements or after the first of them (5+2E choices, not the 3^E product); (d) order of the `use` statements of every reachable module: for N<=3 every permutation of lists of <= 3 statements (so every order of every out-degree) and, for the lists of 4 or 5 statements that arise when a 3-import module also gets the duplicate and/or the missing import, the 2L rotations of the sorted list and of its reverse; for N=4 every permutation of lists of <= 2 statements, longer lists sorted and reversed. Statements of modules unreachable from main are not varied (a correct loader never reads them; reading them is caught in every configuration). Bounds named `full product` cross (a) x (b) x (c) x (d); the bound named `reduced product` (N=3 in the quick tier) takes (c) x (d) without duplicate and missing import, plus (a) x (b) x (d) with plain spelling (the copy of a duplicated use still takes the same or the next spelling); the bound named `separate axes` (N=4) takes (c) x (d), (a) x (d) and (b) x (d). Each configuration runs the real module::load with a recording in-memory Loader (real parse, real compile), then eval + OpenAPI builder + YAML. Oracle: DFS reachability and three-colour cycle detection; result class; load/parse/compile exactly once for exactly the reachable modules; compile(b) before compile(a) for every import a->b; response schema equal to the tree unfolding of the graph; result class and YAML text equal to those of the canonical configuration (sorted order, plain spelling, no duplicate) of the same graph. A configuration is trivial when main imports nothing and nothing is missing; distinct = distinct (result, call trace, document) triples".into()
     }
     fn assumptions(&self) -> Vec<String> {
         vec![
